@@ -139,7 +139,8 @@ func run(c Case) *vk.Violation {
 		case "encode":
 			s, v := ref.FromJ(*op.Vals)
 			b := gen.ByID(s.ID())
-			out, err := b.Fill(v).IEncode()
+			pdu := b.Fill(v)
+			out, err := pdu.IEncode()
 			if err == nil {
 				// with -tags verif a pooled buffer is overwritten with 0xDD when it is released: a result that
 				// still points into it is wrong the moment it is returned (its length word no longer says len(out))
@@ -147,6 +148,28 @@ func run(c Case) *vk.Violation {
 					return vk.Violf("IEncode:"+s.ID()+"/result-invalid-at-return", c, "step %d: IEncode of %s returned %d octets whose length word is %#x: the result points into a buffer that was released (and poisoned) before the call returned", step, s.ID(), len(out), binary.BigEndian.Uint32(out))
 				}
 				keep(&live{what: "IEncode:" + s.ID(), step: step, b: out, snapB: append([]byte{}, out...)})
+				// the caller goes on using ITS value: overwriting the slices it put into the PDU must not reach
+				// the bytes that were returned (an encoder that hands out a view of a large body would show here)
+				rv := reflect.ValueOf(pdu).Elem()
+				for i := 0; i < rv.NumField(); i++ {
+					f := rv.Field(i)
+					if !rv.Type().Field(i).IsExported() {
+						continue
+					}
+					switch {
+					case f.Kind() == reflect.Slice && f.Type().Elem().Kind() == reflect.Uint8:
+						scribble(f.Bytes(), byte(step))
+					case f.Kind() == reflect.Map:
+						it := f.MapRange()
+						for it.Next() {
+							if m := it.Value().MethodByName("Value"); m.IsValid() {
+								if out := m.Call(nil); len(out) == 1 && out[0].Kind() == reflect.Slice {
+									scribble(out[0].Bytes(), byte(step))
+								}
+							}
+						}
+					}
+				}
 			}
 		case "encodebad":
 			// a failing encode (value longer than its slot) must not disturb anything either
